@@ -25,6 +25,7 @@ import NurbsVerif.Lemmas.RatTangent
 import NurbsVerif.Lemmas.RatTangentNorm
 import NurbsVerif.Lemmas.RatTangentReal
 import NurbsVerif.Lemmas.RatTangentWitness
+import NurbsVerif.Lemmas.SpanRDers
 
 /-!
 # C02  Derivatives returned are the true derivatives of the shape  (statements so far)
@@ -68,6 +69,13 @@ the quotient-rule expression is the derivative (`quotient_rule_solves_leibniz_eq
 `tangent_curve_normalized`, `tangent_surface_normalized`, `normal_surface_normalized` (+ `…_refused_iff_…`), end to end
 for rational shapes `normalized_tangent_rational_curve_on_domain`, `normalized_tangent_rational_surface_on_domain`,
 `normalized_normal_rational_surface_on_domain`.
+Derivatives on the span the REPAIRED search finds (F-01b; models `curveDersR`, `curveDersA32R`, `surfaceDersR`,
+`surfaceDersA36R` of `Model/SpanRGrid.lean`; ops `cdersr`, `cders32r`, `sdersr`, `sders36r`), every sorted knot vector with
+`U_p < U_n` – EMPTY last domain span allowed –, whole closed domain: `curve_derivatives_repaired_on_domain`,
+`a32_as_coded_repaired_on_domain`, `curve_derivatives_repaired_at_domain_end` (left-hand derivatives at `U_n`),
+`rational_curve_derivatives_repaired_leibniz`, `surface_derivatives_repaired_on_domain`,
+`rational_surface_derivatives_repaired_on_domain`, `derivatives_repaired_eq_derivatives` (= the tables above under
+`KnotsOk`), witness `curve_derivatives_repaired_witness_F01b`.
 -/
 namespace C02
 open Geomdl Blossom Polynomial
@@ -1063,6 +1071,181 @@ theorem normalized_normal_rational_surface_on_domain (pu pv : ℕ) (Uu Uv : ℕ 
       Su 1 * Sv 2 - Su 2 * Sv 1 = 0 ∧ Su 2 * Sv 0 - Su 0 * Sv 2 = 0 ∧ Su 0 * Sv 1 - Su 1 * Sv 0 = 0)) :=
   normalSurfaceN_rational_domain pu pv Uu Uv su sv Pw u v hUu hUv hlen hP hu1 hu2 hv1 hv2 κu κv hκu hκv Su Sv hSu hSv
     m hmm
+
+/-! ### derivatives on the span the REPAIRED search finds (F-01b): every valid knot vector, whole closed domain
+
+`curveDersR` / `curveDersA32R` / `surfaceDersR` / `surfaceDersA36R` (`Model/SpanRGrid.lean`) are the derivative tables of
+this file (`curveDersAt`, `curveDersA32`, `surfaceDersAt`, `surfaceDersA36`: the per-span functions, unchanged) on the span
+`findSpanLinearR` returns – the literal model of the repaired `find_span_linear`, which steps back to the last NON-EMPTY
+span at the domain end.  `DomOk p U n` (`Lemmas/SpanREval.lean`): non-decreasing knots, `n ≥ p + 1`, `U_p < U_n`; NO
+hypothesis on the last span (`KnotsOk` implies `DomOk`).  Ops `cdersr`, `cders32r`, `sdersr`, `sders36r`; compared with
+`derivatives` of the repaired code on ordinary shapes and at `u = U_n` of knot vectors with an empty last domain span. -/
+
+/-- **Curve derivatives on the whole closed domain of EVERY valid knot vector** (the last domain span may be empty): for
+    `u ∈ [U_p, U_n]` the span `κ` the repaired search finds is a legal index, NOT EMPTY and contains `u`; entry `k ≤ order`
+    of the A3.3/A3.4 table on that span (`curveDersR`) is the `k`-th derivative (Mathlib's `Polynomial.derivative`,
+    iterated) of the span polynomial of `κ` at `u`.  For `u < U_n` span `κ` is the half-open knot interval of `u` (at a
+    knot: derivative from the right); for `u = U_n` it is the LAST NON-EMPTY span of the domain, right end `U_n`, all later
+    spans empty: the derivative from the LEFT (`curve_derivatives_repaired_at_domain_end`). -/
+theorem curve_derivatives_repaired_on_domain (p d : ℕ) (U : ℕ → F) (P : List (List F)) (hU : DomOk p U P.length)
+    (hP : NetOk d P) (u : F) (h1 : U p ≤ u) (h2 : u ≤ U P.length) (order k j : ℕ) (hk : k ≤ order) :
+    p ≤ findSpanLinearR p U P.length u ∧ findSpanLinearR p U P.length u < P.length ∧
+    U (findSpanLinearR p U P.length u) < U (findSpanLinearR p U P.length u + 1) ∧
+    U (findSpanLinearR p U P.length u) ≤ u ∧ u ≤ U (findSpanLinearR p U P.length u + 1) ∧
+    (u < U P.length → u < U (findSpanLinearR p U P.length u + 1)) ∧
+    ((curveDersR p U P u order).getD k []).getD j 0
+      = eval u (derivative^[k] (spanPoly p U P (findSpanLinearR p U P.length u) j)) := by
+  obtain ⟨a1, a2, a3, a4, a5, a6, _⟩ := findSpanLinearR_dom p U P.length u hU.pn hU.mono hU.dom h1 h2
+  exact ⟨a1, a2, a3, a4, a5, a6, curveDersR_true p d U P hU hP u h1 h2 order k j hk⟩
+
+/-- **A3.2 as coded on the span the repaired search finds** (`CurveEvaluator.derivatives` after the repair, model
+    `curveDersA32R`; ops `cders32r`, and `cdersr` through the correspondence of both evaluators): the same values, every
+    valid knot vector, whole closed domain. -/
+theorem a32_as_coded_repaired_on_domain (p d : ℕ) (U : ℕ → F) (P : List (List F)) (hU : DomOk p U P.length)
+    (hP : NetOk d P) (u : F) (h1 : U p ≤ u) (h2 : u ≤ U P.length) (order k j : ℕ) (hk : k ≤ order) :
+    ((curveDersA32R p U P u order).getD k []).getD j 0
+      = eval u (derivative^[k] (spanPoly p U P (findSpanLinearR p U P.length u) j)) :=
+  curveDersA32R_true p d U P hU hP u h1 h2 order k j hk
+
+/-- **At the domain end the derivatives are the LEFT-HAND derivatives**, every valid knot vector: let `κ` be the span the
+    repaired search finds at `U_n`.  Then `U_κ < U_n` (span `κ` is not empty and ends at `U_n`), the curve
+    (`evaluate_single` through the repaired search) coincides with the span polynomial of `κ` on the whole half-open
+    interval `[U_κ, U_n)`, and `derivatives(U_n, order)` (both evaluators) returns the iterated derivatives of THAT
+    polynomial at `U_n` – the derivatives from the left, also when the last span `[U_{n-1}, U_n]` is empty. -/
+theorem curve_derivatives_repaired_at_domain_end (p d : ℕ) (U : ℕ → F) (P : List (List F)) (hU : DomOk p U P.length)
+    (hP : NetOk d P) (order k j : ℕ) (hk : k ≤ order) :
+    U (findSpanLinearR p U P.length (U P.length)) < U P.length ∧
+    U (findSpanLinearR p U P.length (U P.length) + 1) = U P.length ∧
+    (∀ u, U (findSpanLinearR p U P.length (U P.length)) ≤ u → u < U P.length →
+      (curvePointR p U P u).getD j 0 = eval u (spanPoly p U P (findSpanLinearR p U P.length (U P.length)) j)) ∧
+    ((curveDersR p U P (U P.length) order).getD k []).getD j 0
+      = eval (U P.length) (derivative^[k] (spanPoly p U P (findSpanLinearR p U P.length (U P.length)) j)) ∧
+    ((curveDersA32R p U P (U P.length) order).getD k []).getD j 0
+      = eval (U P.length) (derivative^[k] (spanPoly p U P (findSpanLinearR p U P.length (U P.length)) j)) := by
+  obtain ⟨_, _, b3, b4, _⟩ := findSpanLinearR_right_end p U P.length hU.pn hU.mono hU.dom
+  have hlo : U p ≤ U P.length := le_of_lt hU.dom
+  exact ⟨lt_of_lt_of_eq b3 b4, b4, fun u h1 h2 => curvePointR_last_span p d U P hU hP u h1 h2 j,
+    curveDersR_true p d U P hU hP _ hlo (le_refl _) order k j hk,
+    curveDersA32R_true p d U P hU hP _ hlo (le_refl _) order k j hk⟩
+
+/-- **Rational curves, repaired search, every valid knot vector, closed domain, positive weights**: the weight polynomial
+    of the span found is positive at `u`, and A4.2 over the table of either evaluator (`curveDersR`: A3.3/A3.4,
+    `curveDersA32R`: A3.2 as coded, the default) solves the Leibniz system of the true derivatives of that span. -/
+theorem rational_curve_derivatives_repaired_leibniz (p d : ℕ) (U : ℕ → F) (Pw : List (List F))
+    (hU : DomOk p U Pw.length) (hP : NetOk (d+1) Pw) (hwt : ∀ i, i < Pw.length → 0 < (ptsGet Pw i).getD d 0) (u : F)
+    (h1 : U p ≤ u) (h2 : u ≤ U Pw.length) (order k j : ℕ) (hk : k ≤ order) (hj : j < d) :
+    0 < eval u (spanPoly p U Pw (findSpanLinearR p U Pw.length u) d) ∧
+    ∑ i ∈ Finset.range (k+1), (Nat.choose k i : F)
+        * eval u (derivative^[i] (spanPoly p U Pw (findSpanLinearR p U Pw.length u) d))
+        * ((ratCurveDers (curveDersR p U Pw u order)).getD (k - i) []).getD j 0
+      = eval u (derivative^[k] (spanPoly p U Pw (findSpanLinearR p U Pw.length u) j)) ∧
+    ∑ i ∈ Finset.range (k+1), (Nat.choose k i : F)
+        * eval u (derivative^[i] (spanPoly p U Pw (findSpanLinearR p U Pw.length u) d))
+        * ((ratCurveDers (curveDersA32R p U Pw u order)).getD (k - i) []).getD j 0
+      = eval u (derivative^[k] (spanPoly p U Pw (findSpanLinearR p U Pw.length u) j)) :=
+  ⟨(ratCurveDersR_true p d U Pw hU hP hwt u h1 h2 order k j hk hj).1,
+   (ratCurveDersR_true p d U Pw hU hP hwt u h1 h2 order k j hk hj).2,
+   (ratCurveDersA32R_true p d U Pw hU hP hwt u h1 h2 order k j hk hj).2⟩
+
+/-- **Surface derivatives on the closed domain of EVERY valid knot vectors** (per direction `DomOk`): on the span pair the
+    repaired search finds (both spans non-empty and containing the parameter, `C03.findSpanLinearR_spec`) every entry
+    `[k][l]` of the tensor-formula table (`surfaceDersR`; `tri = true`: `SurfaceEvaluator2`, entries `k + l ≤ order`) and of
+    A3.6 as coded (`surfaceDersA36R`, the default evaluator) is the mixed partial derivative of the bivariate span
+    polynomial of that span pair at `(u, v)`; at `u = U_n` / `v = V_m` the partial derivatives from the left. -/
+theorem surface_derivatives_repaired_on_domain (pu pv d : ℕ) (Uu Uv : ℕ → F) (su sv : ℕ) (P : List (List F))
+    (hUu : DomOk pu Uu su) (hUv : DomOk pv Uv sv) (hlen : P.length = su * sv) (hP : NetOk d P) (u v : F)
+    (hu1 : Uu pu ≤ u) (hu2 : u ≤ Uu su) (hv1 : Uv pv ≤ v) (hv2 : v ≤ Uv sv) (order k l j : ℕ)
+    (hk : k ≤ order) (hl : l ≤ order) :
+    (∀ tri : Bool, tri = false ∨ k + l ≤ order →
+      (((surfaceDersR pu pv Uu Uv su sv P u v order tri).getD k []).getD l []).getD j 0
+        = (pderivU^[k] (pderivV^[l] (surfSpanPoly pu pv Uu Uv sv P (findSpanLinearR pu Uu su u)
+            (findSpanLinearR pv Uv sv v) j))).evalEval u v) ∧
+    (((surfaceDersA36R pu pv Uu Uv su sv P u v order).getD k []).getD l []).getD j 0
+      = (pderivU^[k] (pderivV^[l] (surfSpanPoly pu pv Uu Uv sv P (findSpanLinearR pu Uu su u)
+          (findSpanLinearR pv Uv sv v) j))).evalEval u v :=
+  ⟨fun tri htri => surfaceDersR_true pu pv d Uu Uv su sv P hUu hUv hlen hP u v hu1 hu2 hv1 hv2 order k l j tri hk hl htri,
+   surfaceDersA36R_true pu pv d Uu Uv su sv P hUu hUv hlen hP u v hu1 hu2 hv1 hv2 order k l j hk hl⟩
+
+/-- **Rational surfaces, repaired search, every valid knot vectors, closed domain, positive weights**: the weight
+    polynomial of the span pair found is positive at `(u, v)` and A4.4 over the table of the default evaluator as coded
+    (`surfaceDersA36R`) and over the tensor-formula table (`surfaceDersR … false`) solves the bivariate Leibniz system of
+    the true partial derivatives of that span pair. -/
+theorem rational_surface_derivatives_repaired_on_domain (pu pv d : ℕ) (Uu Uv : ℕ → F) (su sv : ℕ) (Pw : List (List F))
+    (hUu : DomOk pu Uu su) (hUv : DomOk pv Uv sv) (hlen : Pw.length = su * sv) (hP : NetOk (d+1) Pw)
+    (hwt : ∀ i, i < Pw.length → 0 < (ptsGet Pw i).getD d 0) (u v : F)
+    (hu1 : Uu pu ≤ u) (hu2 : u ≤ Uu su) (hv1 : Uv pv ≤ v) (hv2 : v ≤ Uv sv)
+    (order k l c : ℕ) (hk : k ≤ order) (hl : l ≤ order) (hc : c < d) :
+    0 < (surfSpanPoly pu pv Uu Uv sv Pw (findSpanLinearR pu Uu su u) (findSpanLinearR pv Uv sv v) d).evalEval u v ∧
+    ∑ i ∈ Finset.range (k+1), ∑ j ∈ Finset.range (l+1),
+      (Nat.choose k i : F) * (Nat.choose l j : F)
+        * (pderivU^[i] (pderivV^[j] (surfSpanPoly pu pv Uu Uv sv Pw (findSpanLinearR pu Uu su u)
+            (findSpanLinearR pv Uv sv v) d))).evalEval u v
+        * ((((ratSurfaceDers (surfaceDersA36R pu pv Uu Uv su sv Pw u v order) order).getD (k - i) []).getD (l - j) []).getD c 0)
+      = (pderivU^[k] (pderivV^[l] (surfSpanPoly pu pv Uu Uv sv Pw (findSpanLinearR pu Uu su u)
+            (findSpanLinearR pv Uv sv v) c))).evalEval u v ∧
+    ∑ i ∈ Finset.range (k+1), ∑ j ∈ Finset.range (l+1),
+      (Nat.choose k i : F) * (Nat.choose l j : F)
+        * (pderivU^[i] (pderivV^[j] (surfSpanPoly pu pv Uu Uv sv Pw (findSpanLinearR pu Uu su u)
+            (findSpanLinearR pv Uv sv v) d))).evalEval u v
+        * ((((ratSurfaceDers (surfaceDersR pu pv Uu Uv su sv Pw u v order false) order).getD (k - i) []).getD (l - j) []).getD c 0)
+      = (pderivU^[k] (pderivV^[l] (surfSpanPoly pu pv Uu Uv sv Pw (findSpanLinearR pu Uu su u)
+            (findSpanLinearR pv Uv sv v) c))).evalEval u v :=
+  ⟨(ratSurfaceDersA36R_true pu pv d Uu Uv su sv Pw hUu hUv hlen hP hwt u v hu1 hu2 hv1 hv2 order k l c hk hl hc).1,
+   (ratSurfaceDersA36R_true pu pv d Uu Uv su sv Pw hUu hUv hlen hP hwt u v hu1 hu2 hv1 hv2 order k l c hk hl hc).2,
+   (ratSurfaceDersR_true pu pv d Uu Uv su sv Pw hUu hUv hlen hP hwt u v hu1 hu2 hv1 hv2 order k l c hk hl hc).2⟩
+
+/-- **With a non-empty last span the R tables ARE the tables of the theorems above** (`KnotsOk` per direction, every
+    parameter of the closed domain): every statement of this file about the derivative tables on the span `findSpanLinear`
+    returns (`…_on_domain`, `…_of_true_derivatives`, tangent / normal) is a statement about the repaired code. -/
+theorem derivatives_repaired_eq_derivatives (pu pv : ℕ) (Uu Uv : ℕ → F) (su sv : ℕ) (P : List (List F)) (u v : F)
+    (order : ℕ) (hUu : KnotsOk pu Uu su) (hUv : KnotsOk pv Uv sv)
+    (hu1 : Uu pu ≤ u) (hu2 : u ≤ Uu su) (hv1 : Uv pv ≤ v) (hv2 : v ≤ Uv sv) :
+    (su = P.length → curveDersR pu Uu P u order = curveDers pu Uu P u order ∧
+      curveDersA32R pu Uu P u order = curveDersA32 pu Uu P (findSpanLinear pu Uu P.length u) u order) ∧
+    (∀ tri, surfaceDersR pu pv Uu Uv su sv P u v order tri
+      = surfaceDersAt pu pv Uu Uv sv P (findSpanLinear pu Uu su u) (findSpanLinear pv Uv sv v) u v order tri) ∧
+    surfaceDersA36R pu pv Uu Uv su sv P u v order
+      = surfaceDersA36 pu pv Uu Uv sv P (findSpanLinear pu Uu su u) (findSpanLinear pv Uv sv v) u v order :=
+  ⟨fun h => ⟨curveDersR_eq_curveDers pu Uu P u order (h ▸ hUu) hu1 (h ▸ hu2),
+      curveDersA32R_eq pu Uu P u order (h ▸ hUu) hu1 (h ▸ hu2)⟩,
+   fun tri => surfaceDersR_eq pu pv Uu Uv su sv P u v order tri hUu hUv hu1 hu2 hv1 hv2,
+   surfaceDersA36R_eq pu pv Uu Uv su sv P u v order hUu hUv hu1 hu2 hv1 hv2⟩
+
+/-- **Derivatives at the end of a domain with an empty last span** (closed witnesses; inputs of
+    `C01.curve_eval_repaired_witness_F01b`).  (1) degree 2, `U = [0,0,1,2,4,4,5,5]`, 5 control points, `u = 4 = U_5`: both
+    evaluators on the span the repaired search finds (span 3 = `[2, 4]`) return point `(3, 1)`, first derivative `(1, 1)`,
+    second derivative `(1/6, 5/6)` – the second derivative of the quadratic piece on `[2, 4]`, the same as at `u = 39/10`
+    inside that span (left-hand values); the table on the span the search WITHOUT step back finds (the empty span 4) is all
+    zeros (division by zero).  (2) end knot repeated `p + 2` times, `U = [0,0,0,1/2,1,1,1,1]`, `u = 1`, order 3: point
+    `(3, 1)`, derivatives `(4, 4)`, `(4, 12)` of the piece on `[1/2, 1]`, zero above the degree.
+    (Closed witness check: a statement about these concrete inputs, decided by evaluation.) -/
+theorem curve_derivatives_repaired_witness_F01b :
+    curveDersR 2 (fnOf ([0,0,1,2,4,4,5,5] : List ℚ)) [[0,0],[1,1],[2,0],[3,1],[4,0]] 4 2 = [[3, 1], [1, 1], [1/6, 5/6]] ∧
+    curveDersA32R 2 (fnOf ([0,0,1,2,4,4,5,5] : List ℚ)) [[0,0],[1,1],[2,0],[3,1],[4,0]] 4 2 = [[3, 1], [1, 1], [1/6, 5/6]] ∧
+    curveDersR 2 (fnOf ([0,0,1,2,4,4,5,5] : List ℚ)) [[0,0],[1,1],[2,0],[3,1],[4,0]] (39/10) 2
+      = [[3481/1200, 217/240], [59/60, 11/12], [1/6, 5/6]] ∧
+    curveDers 2 (fnOf ([0,0,1,2,4,4,5,5] : List ℚ)) [[0,0],[1,1],[2,0],[3,1],[4,0]] 4 2 = [[0, 0], [0, 0], [0, 0]] ∧
+    curveDersR 2 (fnOf ([0,0,0,1/2,1,1,1,1] : List ℚ)) [[0,0],[1,1],[2,0],[3,1],[4,0]] 1 3
+      = [[3, 1], [4, 4], [4, 12], [0, 0]] ∧
+    curveDersA32R 2 (fnOf ([0,0,0,1/2,1,1,1,1] : List ℚ)) [[0,0],[1,1],[2,0],[3,1],[4,0]] 1 3
+      = [[3, 1], [4, 4], [4, 12], [0, 0]] := by
+  decide +kernel
+
+/-- non-vacuity of the `DomOk` hypotheses: that knot vector (empty last domain span) with 5 planar control points, at the
+    domain end; the theorem instantiated there -/
+example : DomOk 2 (fnOf ([0,0,1,2,4,4,5,5] : List ℚ)) ([[0,0],[1,1],[2,0],[3,1],[4,0]] : List (List ℚ)).length ∧
+    NetOk 2 ([[0,0],[1,1],[2,0],[3,1],[4,0]] : List (List ℚ)) :=
+  ⟨⟨mono_of_pairwise _ (by decide +kernel), by decide, by decide +kernel⟩,
+   by intro pt hpt; simp at hpt; rcases hpt with h | h | h | h | h <;> simp [h]⟩
+
+example (j : ℕ) :
+    ((curveDersR 2 (fnOf ([0,0,1,2,4,4,5,5] : List ℚ)) [[0,0],[1,1],[2,0],[3,1],[4,0]] 4 2).getD 1 []).getD j 0
+      = eval 4 (derivative^[1] (spanPoly 2 (fnOf ([0,0,1,2,4,4,5,5] : List ℚ)) [[0,0],[1,1],[2,0],[3,1],[4,0]]
+          (findSpanLinearR 2 (fnOf ([0,0,1,2,4,4,5,5] : List ℚ)) 5 4) j)) :=
+  (curve_derivatives_repaired_on_domain 2 2 (fnOf ([0,0,1,2,4,4,5,5] : List ℚ)) [[0,0],[1,1],[2,0],[3,1],[4,0]]
+    ⟨mono_of_pairwise _ (by decide +kernel), by decide, by decide +kernel⟩
+    (by intro pt hpt; simp at hpt; rcases hpt with h | h | h | h | h <;> simp [h])
+    4 (by decide +kernel) (by decide +kernel) 2 1 j (by omega)).2.2.2.2.2.2
 
 end ordered
 
